@@ -17,13 +17,4 @@ theorem witnessCap_oracle :
     Chain ((Sys.new 2 8 : Sys Nat Nat Nat Nat).treeRun [] witnessCap) 0 12 (.val 2) :=
   oracleN_sound (n := 3) (by decide)
 
-def witnessLife : List (Op Nat Nat Nat Nat) :=
-  [.blk 0 10 0, .bset 0 0 1, .bcommit 0,        -- A writes k = 1
-   .blk 1 11 10, .bset 1 0 2, .bcommit 1]       -- B child of A writes k = 2 and commits
-
-theorem witnessLife_hit :
-    ((((Sys.new 200 2000 : Sys Nat Nat Nat Nat).run witnessLife).1).step (.bget 1 0)).2 = .hit 1 := by
-  decide
-
-
 end Verif.SC
